@@ -5,6 +5,7 @@ package caldav
 
 import (
 	"fmt"
+	"io"
 	"time"
 
 	"github.com/emersion/go-ical"
@@ -13,6 +14,19 @@ import (
 )
 
 var CapabilityCalendar = webdav.Capability("calendar-access")
+
+// decodeCalendar decodes an iCalendar object received from the network. The
+// decoder panics on some malformed inputs (for instance a content line with
+// parameters but no value); such a panic is reported as a decoding error
+// instead of taking down the request handler or the caller.
+func decodeCalendar(r io.Reader) (cal *ical.Calendar, err error) {
+	defer func() {
+		if v := recover(); v != nil {
+			cal, err = nil, fmt.Errorf("ical: malformed calendar object: %v", v)
+		}
+	}()
+	return ical.NewDecoder(r).Decode()
+}
 
 func NewCalendarHomeSet(path string) webdav.BackendSuppliedHomeSet {
 	return &calendarHomeSet{Href: internal.Href{Path: path}}
